@@ -609,6 +609,11 @@ where
         self.metrics.record_execution_attempt();
 
         let tx_env = self.txs[txid].clone();
+        // An attempt that started before its predecessors were committed may have read stale
+        // state. Its EVM error is authoritative only if it started at the commit head; otherwise
+        // it is retried from committed state (`key_tx` re-offers it at once when the boundary has
+        // reached it in the meantime).
+        let started_at_commit_head = self.scheduler_ctx.committed_idx() == txid;
         #[cfg(feature = "verif")]
         {
             crate::verif::event(crate::verif::Event::ExecBegin {
@@ -751,7 +756,7 @@ where
                     self.tx_dependency.add(txid, self.latest_unfinalized_blocker(&blocking_txs));
                 } else {
                     self.metrics.record_evm_error_conflict();
-                    if self.scheduler_ctx.committed_idx() == txid {
+                    if started_at_commit_head {
                         if invalid_transaction {
                             self.abort(AbortReason::FallbackSequential);
                         } else {
